@@ -70,6 +70,12 @@ def v1_inputs(rng, tier, k=None):
             pool.append(body + e)
     kk = k if k is not None else (3 if tier == "quick" else 5)
     pool.extend(V.token_strings(kk))
+    # multi-byte text around the 107-byte limit (bytes vs characters)
+    for k in range(40, 52):
+        for pad in (b"", b"a"):
+            pool.append(b"PROXY UNKNOWN " + b"\xc3\xa9" * k + pad + b"\r\n")
+            pool.append(b"PROXY UNKNOWN " + pad + b"\xe2\x82\xac" * (k * 2 // 3) + b"\r\n")
+    pool.append(b"PROXY TCP4 1.2.3.4 5.6.7.8 1 2" + b"\xc3\xa9" * 40 + b"\r\n")
     for total in (100, 105, 106, 107, 108, 109, 200):
         pool.append(b"x" * total)
         pool.append(b"PROXY UNKNOWN " + b"y" * (total - 14))
